@@ -655,6 +655,38 @@ func runC17(r *Run, stratum string) *Violation {
 				check(k, salt)
 				r.Evals++
 			}
+			// ... or the target is busy for a moment (a script of another client runs past its time limit): exactly the
+			// k-th request of the operation - whatever command it is - is answered -BUSY, everything else is served
+			for k := 0; k < n && c.viol == nil; k++ {
+				c.srv.RestoreDBs(initial)
+				r.W.SetSalt(salt)
+				c.between = concurrent
+				if concurrent != nil && len(extraServers) > 0 {
+					extraServers[0].Repl.ID, extraServers[0].Repl.ID2 = oldID, ""
+				}
+				at := c.srv.Stats.Requests + k + 1
+				hit := false
+				c.srv.Intercept = func(ss *simredis.Session, name string, args [][]byte) *resp.Value {
+					if c.srv.Stats.Requests == at && !hit {
+						hit = true
+						if ss.InMulti {
+							ss.QueueErr = true
+						}
+						v := resp.Err("BUSY Redis is busy running a script. You can only call SCRIPT KILL or SHUTDOWN NOSAVE.")
+						return &v
+					}
+					return nil
+				}
+				_, oerr := c.runOp(opName, op, -1)
+				c.srv.Intercept = nil
+				if !hit {
+					break
+				}
+				r.W.Fault("target_busy_once")
+				r.Logf("request %d of %s answered -BUSY, operation returned %v", k+1, opName, oerr)
+				check(k, salt)
+				r.Evals++
+			}
 		}
 	}
 	r.NonTriv = before.ok || (isGC && liveIDs[oldID])
